@@ -245,7 +245,7 @@ def count_cells(a: Dict[str, Any], into: Dict[str, int]) -> None:
 # ------------------------------------------------------------------------------------------------------------
 # checker, evaluated inside coqc over Model/ValueConv.v + Spec/ValueConv.v
 # ------------------------------------------------------------------------------------------------------------
-REQ = ["MV.Model.Transform", "MV.Model.ValueConv", "MV.Spec.ValueConv", "MV.Gen.Registry"]
+REQ = ["MV.Model.Transform", "MV.Model.ValueConv", "MV.Spec.ValueConv", "MV.Gen.Registry", "MV.Model.ValueConvReg"]
 CASE_TY = "ccase"
 
 EXTRA = r"""
@@ -286,18 +286,6 @@ Definition hw_z2f (z : Z) : spec_float :=
 Definition hw_ok_cell (c : cell) : bool :=
   match c with VInt z => if (Z.abs z <? 2 ^ 63) then sf_eqb (hw_z2f z) (z2f z) else true | _ => true end.
 Definition hw_ok (x : anytable) : bool := forallb (fun c => forallb hw_ok_cell (snd c)) (view_of x).
-
-(* the number Gen/Registry.v gives to a framework type *)
-Definition fw_num (nm : string) : fw :=
-  match find (fun p => String.eqb (snd p) nm) gen_fw_names with Some p => fst p | None => 999%nat end.
-Definition n_d := fw_num "builtins.list".
-Definition n_a := fw_num "pyarrow.lib.Table".
-Definition n_p := fw_num "pandas.DataFrame".
-Definition num_of (a : fwk) : fw := match a with FDict => n_d | FArrow => n_a | FPandas => n_p end.
-(* the route TransformFrameworkStep.transform takes on the REGENERATED registry, run on the model conversions *)
-Definition route (a b : fwk) (x : anytable) : anytable :=
-  match tfs_transform anytable (mfwd n_d n_a n_p) (mbwd n_d n_a n_p) gen_hub gen_registry (num_of a) (num_of b) x with
-  | TOk _ y => y | _ => TFail false end.
 
 Inductive ccase :=
 | CLeg (a b : fwk) (src out : anytable)        (* one real conversion a -> b (direct transformer or the step loop) *)
